@@ -45,5 +45,52 @@ def run(chk):
                 nontrivial, tweak=hostile)
 
 
+    if not chk.violations:
+        resource_guard(chk)
+
+
+def resource_guard(chk):
+    """Supporting measurement for the last clause of C12 (the theorems C12_guard_* / C12_bounded_state
+    are about the model): memory reserved while a frame is handled must not grow with a number
+    DECLARED inside the frame (attachment count, id), only with the bytes received."""
+    import asyncio
+    import tracemalloc
+    from drivers import srv
+    cfg = {'handlers': {'/': {'connect': 1, 'ev': 2}}, 'ns_handlers': {},
+           'behav': {1: {'arity': 2, 'actions': [], 'outcome': ('ret', None)},
+                     2: {'arity': None, 'actions': [], 'outcome': ('ret', None)}},
+           'namespaces': ['/'], 'always_connect': False, 'serializer': 'default'}
+    frames = ['5%d-["ev",{"_placeholder":true,"num":0}]' % n for n in (3, 3000, 300000, 3000000)] + \
+             ['6%d-1[{"_placeholder":true,"num":0}]' % n for n in (3, 3000000)] + \
+             ['2%d["ev"]' % (10 ** k) for k in (3, 30, 99)]
+
+    async def measure():
+        peaks = []
+        for f in frames:
+            d = srv.ServerDriver(cfg, 'sync')
+            await d.op(('eio_connect', 'e0', {}))
+            await d.op(('msg', 'e0', '0'))
+            tracemalloc.start()
+            tracemalloc.reset_peak()
+            base = tracemalloc.get_traced_memory()[0]
+            await d.op(('msg', 'e0', f))
+            peak = tracemalloc.get_traced_memory()[1] - base
+            tracemalloc.stop()
+            peaks.append(peak)
+        return peaks
+    peaks = asyncio.run(measure())
+    chk.extra['resource_guard'] = [{'frame': f[:40], 'declared': f[1:f.find('-')] if '-' in f[:14] else f[1:12],
+                                    'peak_bytes': p} for f, p in zip(frames, peaks)]
+    for f, p in zip(frames, peaks):
+        chk.count(1, ('resource', f[:12]))
+        if p > 200000 + 400 * len(f):
+            chk.violation('allocation-proportional-to-declared-number',
+                          'handling a %d-byte frame reserved %d bytes: memory grows with a number declared in the frame'
+                          % (len(f), p), {'frame': f, 'peak_bytes': p})
+
+
 def replay(chk, data):
+    if 'frame' in data['replay']:
+        print(data['replay'])
+        return 1
     return srvprop.replay(chk, data, 'c12')
